@@ -152,6 +152,15 @@ func (r *Run) Set(k string, v interface{}) {
 	r.mu.Unlock()
 }
 
+// Max raises a numeric coverage gauge to n if n is larger.
+func (r *Run) Max(k string, n int64) {
+	r.mu.Lock()
+	if v, ok := r.extra[k].(int64); !ok || n > v {
+		r.extra[k] = n
+	}
+	r.mu.Unlock()
+}
+
 // Add adds n to a numeric coverage counter.
 func (r *Run) Add(k string, n int64) {
 	r.mu.Lock()
